@@ -13,6 +13,7 @@ import Pdpy11.Driver.LineCol
 import Pdpy11.Driver.State
 import Pdpy11.Driver.Cli
 import Pdpy11.Driver.Asm
+import Pdpy11.Driver.Defs
 namespace Pdpy11.Driver
 
 def handle (line : String) : String :=
@@ -44,6 +45,7 @@ def handle (line : String) : String :=
     | "state" => handleState args
     | "cli" => handleCli args
     | "asm" => handleAsm args
+    | "defs" => handleDefs args
     | "ping" => "pong"
     | _ => "bad-op"
 
